@@ -167,6 +167,54 @@ func familyB(depth int) *fam {
 	return out
 }
 
+// familyRC: a promoted release candidate - revision 3 carries BOTH a/v1.3.0-rc.1 and a/v1.3.0
+// (one commit, one content); branches dev -> 3, old -> 2, main -> 3 or an untagged revision 4.
+func familyRC(depth int) *fam {
+	const addr = "example.com"
+	av := []string{"v1.0.0", "v1.1.0", "v1.3.0-rc.1", "v1.3.0"}
+	arev := []int{1, 2, 3, 3}
+	content := []int{0, 1, 2, 2} // the two tags of revision 3 name the same dawn.toml
+	pa, pb := addr+"/a", addr+"/b"
+	out := &fam{name: "promoted release candidate: a(v1.0.0 v1.1.0 v1.3.0-rc.1=v1.3.0 on one commit), b", count: 8 * 5 * 2, paths: []string{pa, pb}, rotated: false, depth: depth}
+	out.universe = func(i int64) *mvsfake.Universe {
+		abits := int(i % 8)
+		bsel := int(i / 8 % 5)
+		head := 3 + int(i/40%2)
+		r := mvsfake.RepoSpec{Addr: addr, NRevs: head, Branches: map[string]int{"main": head, "dev": 3, "old": 2}, Default: "main"}
+		var breq []Req
+		if bsel > 0 {
+			breq = []Req{{pa, av[bsel-1]}}
+		}
+		r.Tags = append(r.Tags, mvsfake.Tag{Dir: "b", Version: "v1.0.0", Rev: 1, Requires: breq})
+		for k, v := range av {
+			var rq []Req
+			if abits>>content[k]&1 == 1 {
+				rq = []Req{{pb, "v1.0.0"}}
+			}
+			r.Tags = append(r.Tags, mvsfake.Tag{Dir: "a", Version: v, Rev: arev[k], Requires: rq})
+		}
+		return &mvsfake.Universe{Repos: []mvsfake.RepoSpec{r}}
+	}
+	for _, a := range append([]string{""}, av...) {
+		for _, b := range []string{"", "v1.0.0"} {
+			var s []Req
+			if a != "" {
+				s = append(s, Req{pa, a})
+			}
+			if b != "" {
+				s = append(s, Req{pb, b})
+			}
+			out.rootSets = append(out.rootSets, s)
+		}
+	}
+	w := mvsfake.Build(out.universe(0))
+	repo := w.Repo(pa)
+	out.queries = append(out.queries, pathQueries(pa, av, 1, []string{"main", "dev", "old"}, nil, nil)...)
+	out.queries = append(out.queries, mvsfake.Query{Path: pa, Kind: "rev", Arg: repo.Rev(3).PseudoID()}, mvsfake.Query{Path: pa, Kind: "rev", Arg: repo.Rev(3).ID()}, mvsfake.Query{Path: pa, Kind: "latest"})
+	out.queries = append(out.queries, pathQueries(pb, []string{"v1.0.0"}, 0, []string{"main"}, nil, nil)...)
+	return out
+}
+
 // familyT: the universe of /repo/internal/mvs/reqs_test.go.
 func familyT(depth int) *fam {
 	const sandbox = "github.com/pgavlin/sandbox"
@@ -240,6 +288,49 @@ func (s state) config() *project.Config {
 		c.Requirements[n] = project.RequirementConfig{Path: r.Path, Version: r.Version}
 	}
 	return c
+}
+
+// configOrdered inserts the requirements into the map in ascending (or descending) name
+// order: the iteration order of a small Go map is a random rotation of its insertion order.
+func (s state) configOrdered(desc bool) *project.Config {
+	var ns []string
+	for n := range s {
+		ns = append(ns, n)
+	}
+	sort.Strings(ns)
+	if desc {
+		for i, j := 0, len(ns)-1; i < j; i, j = i+1, j-1 {
+			ns[i], ns[j] = ns[j], ns[i]
+		}
+	}
+	c := &project.Config{Requirements: map[string]project.RequirementConfig{}}
+	for _, n := range ns {
+		c.Requirements[n] = project.RequirementConfig{Path: s[n].Path, Version: s[n].Version}
+	}
+	return c
+}
+
+// dupGetSig: on a requirement set that names one project twice at different versions, a Get
+// that returns the old requirement list verbatim (a project is added; or the requested version
+// is already selected) lets transformReqs write the LAST listed version of that project under
+// all of its names - which one is last is map iteration order. Everything that follows from it
+// is reported under this one cause.
+const dupGetSig = "C11:duplicate-root-path:get-writes-arbitrary-version"
+
+func dupGet(s state, kind string) bool {
+	return (kind == "get-add" || kind == "get-same") && s.dupPath()
+}
+
+// dupPath reports whether some project is required under more than one name.
+func (s state) dupPath() bool {
+	seen := map[string]bool{}
+	for _, r := range s {
+		if seen[r.Path] {
+			return true
+		}
+		seen[r.Path] = true
+	}
+	return false
 }
 
 func (s state) hasPath(p string) (string, bool) {
@@ -458,15 +549,54 @@ func (e *explorer) apply(si *sinfo, oi int) *trans {
 	tr.kind, tr.want, tr.ref = e.label(si, oi)
 	si.tr[oi] = tr
 	cfg := si.s.config()
-	out, err, st := e.g.Run(e.t, tr.kind, func() (any, error) {
-		switch o.kind {
-		case "tidy":
-			return mvs.Tidy(e.ctx, cfg, e.res)
-		case "upgrade-all":
-			return mvs.UpgradeAll(e.ctx, cfg, e.res)
+	runOp := func(cfg *project.Config) (any, error, int) {
+		return e.g.Run(e.t, tr.kind, func() (any, error) {
+			switch o.kind {
+			case "tidy":
+				return mvs.Tidy(e.ctx, cfg, e.res)
+			case "upgrade-all":
+				return mvs.UpgradeAll(e.ctx, cfg, e.res)
+			}
+			return mvs.Get(e.ctx, cfg, e.res, o.arg())
+		})
+	}
+	dup := si.s.dupPath()
+	if dup {
+		cfg = si.s.configOrdered(false)
+	}
+	out, err, st := runOp(cfg)
+	if dup && st == mvsfake.Done {
+		// one project under several names: the same operation again with the requirement map
+		// built in the opposite order (and a few more times) must give the same outcome
+		render := func(out any, err error) string {
+			if err != nil {
+				return "error: " + err.Error()
+			}
+			ns := state{}
+			for n, r := range out.(map[string]project.RequirementConfig) {
+				ns[n] = Req{r.Path, r.Version}
+			}
+			return ns.key()
 		}
-		return mvs.Get(e.ctx, cfg, e.res, o.arg())
-	})
+		first := render(out, err)
+		for rep := 0; rep < 3; rep++ {
+			out2, err2, st2 := runOp(si.s.configOrdered(rep != 1))
+			if st2 != mvsfake.Done {
+				break
+			}
+			e.t.Add("evaluations", 1)
+			e.t.Add("repetitions-with-a-project-named-twice", 1)
+			if second := render(out2, err2); second != first {
+				sig := "C11:duplicate-root-path:run-dependent"
+				if dupGet(si.s, tr.kind) {
+					sig = dupGetSig
+				}
+				e.t.Violation(sig, e.size(si), fmt.Sprintf("[%s #%d] %s on %v gives %s on one run and %s on another (only the order in which the requirement map was built differs)", e.f.name, e.ui, o, si.s, first, second),
+					e.replayOf(si, o, map[string]any{"returned": first, "returned_on_another_run": second}))
+				break
+			}
+		}
+	}
 	tr.status = st
 	if st == mvsfake.Skipped {
 		return tr
@@ -557,7 +687,11 @@ func (e *explorer) checkSpelling(si *sinfo, oi int) {
 		if tc.to != "" {
 			canon = e.states[tc.to].s
 		}
-		e.t.Violation("C11:query-path-spelling", e.size(si), fmt.Sprintf("[%s #%d] %s on %v (build list %s): %s", e.f.name, e.ui, o, si.s, mvsfake.FormatList(si.bl), what),
+		sig := "C11:query-path-spelling"
+		if dupGet(si.s, tr.kind) {
+			sig = dupGetSig
+		}
+		e.t.Violation(sig, e.size(si), fmt.Sprintf("[%s #%d] %s on %v (build list %s): %s", e.f.name, e.ui, o, si.s, mvsfake.FormatList(si.bl), what),
 			e.replayOf(si, o, map[string]any{"returned": e.states[tr.to].s, "returned_build_list": mvsfake.FormatList(e.states[tr.to].bl), "canonical_operation": e.ops[o.canon].String(), "canonical_result": canon}))
 	}
 }
@@ -602,7 +736,10 @@ func (e *explorer) check(si *sinfo, oi int) {
 		if extra == nil {
 			extra = map[string]any{}
 		}
-		if tainted := taint(); tainted != "" && tainted != sig {
+		if dupGet(si.s, tr.kind) {
+			what = "(would be " + sig + ") " + what
+			sig = dupGetSig
+		} else if tainted := taint(); tainted != "" && tainted != sig {
 			what = "(follows from the mis-resolved query; would be " + sig + ") " + what
 			extra["consequence_signature"] = sig
 			sig = tainted
@@ -830,6 +967,9 @@ func (e *explorer) check(si *sinfo, oi int) {
 	seen := map[string]string{}
 	for n, r := range ni.s {
 		if m, dup := seen[r.Path]; dup {
+			if a, b := si.s[m], si.s[n]; a.Path == r.Path && b.Path == r.Path {
+				continue // both names already stood for this project
+			}
 			viol("C11:names:duplicate-path", fmt.Sprintf("%s is required twice, as %q and %q", r.Path, m, n), nil)
 			break
 		}
@@ -1003,8 +1143,11 @@ func main() {
 	}
 	// three versions of one project: a downgrade can fall back to an earlier version instead of
 	// having to drop a project
-	fams = append(fams, generic(&mvsfake.Family{Name: "3+2 a(v1.0.0 v1.1.0 v1.2.0), b(v1.0.0 v1.1.0)", Addr: "example.com",
-		Projects: []mvsfake.ProjectDef{{Dir: "a", Versions: []string{"v1.0.0", "v1.1.0", "v1.2.0"}}, two("b", "v1.0.0", "v1.1.0")}}, 1, false, false, depth))
+	f32 := &mvsfake.Family{Name: "3+2 a(v1.0.0 v1.1.0 v1.2.0), b(v1.0.0 v1.1.0)", Addr: "example.com",
+		Projects: []mvsfake.ProjectDef{{Dir: "a", Versions: []string{"v1.0.0", "v1.1.0", "v1.2.0"}}, two("b", "v1.0.0", "v1.1.0")}}
+	g32 := generic(f32, 1, false, false, depth)
+	g32.rootSets = f32.RootSetsDup() // also: one project under two or three names at different versions (a hand-edited dawn.toml)
+	fams = append(fams, g32, familyRC(depth))
 	if r.Thorough() {
 		fams = append(fams, generic(&mvsfake.Family{Name: "3x3 a,b(v1.0.0 v1.1.0 v1.2.0)", Addr: "example.com",
 			Projects: []mvsfake.ProjectDef{{Dir: "a", Versions: []string{"v1.0.0", "v1.1.0", "v1.2.0"}}, {Dir: "b", Versions: []string{"v1.0.0", "v1.1.0", "v1.2.0"}}}}, 2, true, false, depth))
